@@ -14,7 +14,11 @@ Signatures are ``<grid class>|<flag>|<function>|<clause>``; every violation carr
 case for :func:`replay_one` (the grid plus the failing point / pair / draws), verified to reproduce
 in isolation before it is reported.  The known defect D3 (the z-period of ``CylindricalSymGrid`` is
 applied to the Cartesian *y* component by ``difference_vector``) surfaces as
-``CylindricalSymGrid|periodic_z=True|difference_vector|<clause>``.
+``CylindricalSymGrid|periodic_z=True|difference_vector|<clause>``.  Points whose coordinates are whole
+numbers are additionally presented as python ints, ``np.int64`` and ``np.float32`` (family
+``<class>|<flag>|<function>|integer-typed points|<clause>`` resp. ``float32-typed points``): the
+result has to be the one obtained for the same points as float64 (defect fixed in 24adc85: the wrapped
+difference was truncated to the integer dtype of the points).
 
 Tolerances (``EPS = 2**-52``; nothing is tuned): a float result may differ from the reference by
 ``K = 16`` roundings *at the scale of the operands of the formula* (``|x_min|``, ``|x_max|``, ``|x|``;
@@ -53,6 +57,7 @@ BOUND_KINDS = {
     "milli": (-1e-3, 2e-3),
     "mega": (-1e6, 3e6),
     "asym": (-1.0, 2.0),
+    "halfint": (0.0, 4.5),  # non-integer period with integer-valued points inside
 }
 KIND_NAMES = list(BOUND_KINDS)
 
@@ -934,6 +939,228 @@ def fam_pairs(G, R, col, c1, c2, ang1, ang2, single_rows):
 
 
 # ----------------------------------------------------------------------------------------------
+# family: integer-valued points presented as python ints, int64 arrays and float32 arrays
+# ----------------------------------------------------------------------------------------------
+
+EPS32 = 2.0**-23
+TYPED_FORMS = [
+    # (family name in the signature, description, converter of a float64 array, round-off of the form)
+    ("integer-typed points", "python list of ints", lambda a: a.astype(np.int64).tolist(), EPS),
+    ("integer-typed points", "np.int64 array", lambda a: a.astype(np.int64), EPS),
+    ("float32-typed points", "np.float32 array", lambda a: a.astype(np.float32), EPS32),
+]
+
+
+def _ints(vals, limit):
+    out = []
+    for v in vals:
+        v = int(v)
+        if abs(v) < 2**24 and v not in out:  # exactly representable as float32
+            out.append(v)
+    return out[:limit]
+
+
+def integer_points(R):
+    """integer-valued points of every coordinate system (all combinations across the axes): inside,
+    on/near the bounds, outside, several periods away.  Returns {coords: float64 array (n, k)}"""
+    limit = {1: 7, 2: 6, 3: 5}[R.na]
+    cell_ax, grid_ax = [], []
+    for ax in range(R.na):
+        n, lo, hi, L = R.shape[ax], R.lo[ax], R.hi[ax], R.L[ax]
+        cell_ax.append(_ints([0, n, 1, -1, n + 2, -2 * n, 3 * n + 1], limit))
+        grid_ax.append(
+            _ints(
+                [math.ceil(lo), math.floor(hi), math.ceil(lo) + 1, math.floor(lo) - 1, math.ceil(hi) + 2,
+                 round(lo - 2.2 * L), round(hi + 2.8 * L)],
+                limit,
+            )
+        )
+    prod = lambda axes: np.array(list(itertools.product(*axes)), dtype=float)  # noqa: E731
+    if R.kind == "cart":
+        cart_ax = grid_ax
+    elif R.kind == "polar":
+        cart_ax = [grid_ax[0], [0, 1, -2]]
+    elif R.kind == "cyl":
+        cart_ax = [grid_ax[0][:4], [0, 1, -2], grid_ax[1]]
+    else:
+        cart_ax = [grid_ax[0], [0, 1], [0, -2]]
+    return {"cell": prod(cell_ax), "grid": prod(grid_ax), "cartesian": prod(cart_ax)}
+
+
+def fam_typed(G, R, col, only=None):
+    """every point-taking API must give the same result for integer-valued points whether they are
+    given as float64 arrays (the form validated by the other families) or as ints / int64 / float32"""
+    pts = integer_points(R)
+    dxmin = float(R.dx.min())
+
+    def phys(P, src):  # magnitude of the operands in physical units, per point
+        a = np.abs(np.asarray(P, dtype=float))
+        m = (a * R.dx).max(-1) if src == "cell" else a.max(-1)
+        return m + float(R.scale.max())
+
+    def tol_for(P, src, out, out_kind, eps):
+        t = K * eps * (P if src is None else phys(P, src))
+        if out_kind == "cell":
+            t = t / dxmin
+        t = t.reshape(t.shape + (1,) * (out.ndim - t.ndim))
+        return t + K * eps * np.abs(out)
+
+    unary = []
+    for src, dst in itertools.permutations(("cell", "grid", "cartesian"), 2):
+        unary.append(("transform", f"{src}->{dst}", src, dst, lambda p, s=src, d=dst: G.transform(p, s, d)))
+    for co in ("cell", "grid", "cartesian"):
+        unary.append(("contains_point", f"coords={co}", co, "bool", lambda p, c=co: G.contains_point(p, coords=c)))
+    for reflect in (False, True):
+        unary.append(("normalize_point", f"reflect={reflect}", "grid", "grid",
+                      lambda p, r=reflect: G.normalize_point(p, reflect=r)))
+    binary = []
+    for co in ("cell", "grid", "cartesian"):
+        binary.append(("difference_vector", f"coords={co}", co, "cartesian",
+                       lambda a, b, c=co: G.difference_vector(a, b, coords=c)))
+        binary.append(("distance", f"coords={co}", co, "cartesian", lambda a, b, c=co: G.distance(a, b, coords=c)))
+
+    def face_skip(P, src, eps):
+        """points whose containment is not decided at the round-off ``eps`` of the form (float32 only)"""
+        P = np.asarray(P, dtype=float)
+        gq = R.grid_of_cell(P) if src == "cell" else (R.from_cart(P) if src == "cartesian" else P)
+        c = (gq - R.lo) / R.dx
+        t = (K * eps * phys(P, src) / dxmin)[..., None] + FACE
+        return np.any((np.abs(c) < t) | (np.abs(c - R.N) < t), axis=-1)
+
+    def compare(api, variant, fam, form, shape_name, got, exp, tol, inputs, rc):
+        """got: result of the typed form (or the exception), exp: float64 result"""
+        what = f"{api}({variant}) with {form}, {shape_name}"
+        if isinstance(got, Exception):
+            if (isinstance(got, TypeError) and api == "contains_point" and variant == "coords=cell"
+                    and form == "python list of ints"):
+                # loud refusal (decision of the lead): cell->cell is the identity, so a python list reaches the
+                # comparison unconverted; arrays and lists in the other coordinate systems are accepted
+                col.refs.add('contains_point(<python list>, coords="cell"): TypeError (list compared with int)')
+                col.outs.add("typed:python list refused by contains_point(coords=cell)")
+                return
+            col.check("typed", api, f"{fam}|raises {type(got).__name__} ({form})", True,
+                      lambda i: (f"{what}: input {inputs(0)} raises {type(got).__name__}: {str(got)[:200]}",
+                                 {"form": form}), rc)
+            return
+        got = np.asarray(got)
+        if got.shape != exp.shape:
+            col.check("typed", api, f"{fam}|result has another shape than for float64 points", True,
+                      lambda i: (f"{what}: shape {got.shape}, float64 points give {exp.shape}", {"form": form}), rc)
+            return
+        if exp.dtype == bool:
+            bad = got != exp
+            if tol is not None:  # float32 form: mask of undecided points
+                bad = bad & ~tol
+        else:
+            bad = np.abs(got.astype(float) - exp) > tol
+            if fam.startswith("float32") and np.any(np.abs(got.astype(float) - exp) > tol * (EPS / EPS32)):
+                col.outs.add("typed:float32 result carries float32 round-off (allowed)")
+        if bad.ndim == 0:
+            bad = bad.reshape(1)
+        col.check(
+            "typed", api, f"{fam}|differs from the result for the same points as float64", bad,
+            lambda i: (f"{what}: input {inputs(i)} -> {_f(got.reshape(bad.shape[0], -1)[i])}, "
+                       f"float64 points give {_f(exp.reshape(bad.shape[0], -1)[i])}", {"form": form}),
+            rc,
+        )
+
+    def safe(f, *args):
+        try:
+            return f(*args)
+        except Exception as e:  # noqa: BLE001
+            return e
+
+    # ---- APIs taking one point array ----
+    for api, variant, src, out_kind, f in unary:
+        if only is not None and (only["api"], only["variant"]) != (api, variant):
+            continue
+        P = np.array(only["points"], dtype=float) if only is not None else pts[src]
+        n = len(P)
+        exp_single = np.array([np.asarray(f(P[i].copy())) for i in range(n)])
+        exp_batch = np.asarray(f(P.copy()))
+        P3 = np.stack([P, P[::-1]])
+        exp_b3 = np.asarray(f(P3.copy()))
+        if exp_single.dtype != bool:
+            exp_single, exp_batch, exp_b3 = (np.asarray(a, dtype=float) for a in (exp_single, exp_batch, exp_b3))
+
+        def rc(i, api=api, variant=variant, P=P):
+            return [
+                {"grid": R.cfg, "family": "typed", "api": api, "variant": variant, "points": [P[i].tolist()]},
+                {"grid": R.cfg, "family": "typed", "api": api, "variant": variant, "points": P.tolist()},
+            ]
+
+        for fam, form, conv, eps in TYPED_FORMS:
+            if out_kind == "bool":
+                t1 = face_skip(P, src, eps) if eps == EPS32 else None
+            else:
+                t1 = tol_for(P, src, exp_single, out_kind, eps)
+            got = [safe(f, conv(P[i])) for i in range(n)]
+            errs = [i for i, g_ in enumerate(got) if isinstance(g_, Exception)]
+            if errs:
+                i0 = errs[0]
+                compare(api, variant, fam, form, "single point", got[i0], None, None,
+                        lambda i, i0=i0: repr(conv(P[i0])), lambda i, i0=i0: rc(i0))
+            else:
+                compare(api, variant, fam, form, "single points", np.array([np.asarray(g_) for g_ in got]), exp_single, t1,
+                        lambda i: repr(conv(P[i])), rc)
+            compare(api, variant, fam, form, "batch (n,d)", safe(f, conv(P)), exp_batch, t1,
+                    lambda i: repr(conv(P[i])), rc)
+            if out_kind == "bool":
+                t3 = face_skip(P3, src, eps) if eps == EPS32 else None
+            else:
+                t3 = tol_for(P3, src, exp_b3, out_kind, eps)
+            compare(api, variant, fam, form, "batch (m,n,d)", safe(f, conv(P3)), exp_b3, t3,
+                    lambda i: repr(conv(P3[i])), lambda i: rc(0)[1:])
+            col.outs.add(f"typed:{form}")
+    # ---- APIs taking two point arrays: all ordered pairs of the first points of each axis ----
+    for api, variant, src, out_kind, f in binary:
+        if only is not None and (only["api"], only["variant"]) != (api, variant):
+            continue
+        if only is not None:
+            P1, P2 = np.array(only["points"], dtype=float), np.array(only["points2"], dtype=float)
+        else:
+            base = pts[src]
+            keep = np.ones(len(base), dtype=bool)
+            for c in range(base.shape[1]):  # at most the first 4 values of every coordinate
+                keep &= np.isin(base[:, c], _dedupe(base[:, c])[:4])
+            base = base[keep]
+            m = len(base)
+            P1, P2 = np.repeat(base, m, axis=0), np.tile(base, (m, 1))
+        n = len(P1)
+        exp_batch = np.asarray(f(P1.copy(), P2.copy()), dtype=float)
+        nsingle = n if only is not None else min(n, 64)
+        rows = np.unique(np.linspace(0, n - 1, nsingle).astype(int))  # fixed, evenly spread subset of single calls
+        exp_single = np.array([np.asarray(f(P1[i].copy(), P2[i].copy()), dtype=float) for i in rows])
+        mag = phys(P1, src) + phys(P2, src)
+
+        def rc(i, api=api, variant=variant, P1=P1, P2=P2):
+            return [
+                {"grid": R.cfg, "family": "typed", "api": api, "variant": variant,
+                 "points": [P1[i].tolist()], "points2": [P2[i].tolist()]},
+                {"grid": R.cfg, "family": "typed", "api": api, "variant": variant},
+            ]
+
+        for fam, form, conv, eps in TYPED_FORMS:
+            tb = tol_for(mag, None, exp_batch, out_kind, eps)
+            compare(api, variant, fam, form, "batch (n,d)", safe(f, conv(P1), conv(P2)), exp_batch, tb,
+                    lambda i: f"{conv(P1[i])!r}, {conv(P2[i])!r}", rc)
+            got = [safe(f, conv(P1[i]), conv(P2[i])) for i in rows]
+            errs = [j for j, g_ in enumerate(got) if isinstance(g_, Exception)]
+            if errs:
+                j0 = errs[0]
+                compare(api, variant, fam, form, "single points", got[j0], None, None,
+                        lambda i, j0=j0: f"{conv(P1[rows[j0]])!r}, {conv(P2[rows[j0]])!r}",
+                        lambda i, j0=j0: rc(int(rows[j0])))
+            else:
+                ts = tol_for(mag[rows], None, exp_single, out_kind, eps)
+                compare(api, variant, fam, form, "single points", np.array([np.asarray(g_) for g_ in got]), exp_single, ts,
+                        lambda i: f"{conv(P1[rows[i]])!r}, {conv(P2[rows[i]])!r}", lambda i: rc(int(rows[i])))
+            # one typed, one float64 argument
+            compare(api, variant, fam, form, "batch (n,d), second point float64", safe(f, conv(P1), P2.copy()), exp_batch, tb,
+                    lambda i: f"{conv(P1[i])!r}, {P2[i]!r}", rc)
+
+
+# ----------------------------------------------------------------------------------------------
 # workers
 # ----------------------------------------------------------------------------------------------
 
@@ -964,6 +1191,8 @@ def _run_family(G, R, col, case):
         else:
             c1, c2, rows = pair_lattice(R, int(case.get("pair_size", 7)))
         fam_pairs(G, R, col, c1, c2, tuple(case.get("ang1", a1)), tuple(case.get("ang2", a2)), rows)
+    elif fam == "typed":
+        fam_typed(G, R, col, only=case if "api" in case else None)
     else:
         raise ValueError(fam)
 
@@ -983,7 +1212,7 @@ def grid_worker(case):
     R = Ref(cfg)
     G = build(cfg)
     col = Col(R)
-    for fam in ("static", "points", "random", "pairs"):
+    for fam in ("static", "points", "random", "pairs", "typed"):
         _run_family(G, R, col, {"grid": cfg, "family": fam, "seed": seed, "pair_size": case.get("pair_size", 7)})
     viol = []
     for v in col.viol.values():
@@ -1032,7 +1261,8 @@ def enumerate_grids(tier, seed):
     kinds = KIND_NAMES
     # 3d bounds: covering design (every kind on every axis), rotated by the seed; thorough adds the
     # complete product for the two smallest shapes
-    rot = [tuple(kinds[(i + j * (1 + s % 4)) % 5] for j in range(3)) for i in range(5)]
+    nk = len(kinds)
+    rot = [tuple(kinds[(i + j * (1 + s % 4)) % nk] for j in range(3)) for i in range(nk)]
     out = {c: [] for c in ("CartesianGrid", "CylindricalSymGrid", "UnitGrid", "PolarSymGrid", "SphericalSymGrid")}
 
     def flags(d):
@@ -1110,6 +1340,14 @@ def main(run):
     run.notes["point_lattice_per_axis"] = "cell coordinates {0.5, N-0.5, 0, N, 0.3, N/2, +-1e-9, N+-1e-9, -0.7, N+1.2, -3.7N, 4.3N}, all combinations across axes"
     run.notes["pair_lattice_per_axis"] = "{0.3, N-0.1, N/2+0.3, N+1.2, 0.1, N/2, -0.7} (without -0.7 for 3-d grids in the quick tier), all ordered pairs of all combinations across axes"
     run.notes["random_draws"] = [repr(v) for v in DRAWS]
+    run.notes["typed_points"] = (
+        "integer-valued points of every coordinate system (cell: {0,N,1,-1,N+2,-2N,3N+1}; grid/cartesian: whole numbers "
+        "inside, next to and several periods outside the bounds; all combinations across axes) are given to transform (6 "
+        "directions), contains_point (3 coords), normalize_point (reflect on/off), difference_vector and distance (3 coords, "
+        "all ordered pairs of the first 4 values per coordinate) as python lists of ints, np.int64 arrays and np.float32 "
+        "arrays - single points, batches (n,d) and (m,n,d) - and must reproduce the float64 result (int forms: float64 "
+        "tolerance; float32: the same expression with 2**-23); the bounds kind (0, 4.5) gives a non-integer period"
+    )
     run.notes["tolerances"] = (
         f"{K:g} roundings (2**-52) at operand scale for coordinates, {KV:g} at the scale of the full ball of the upper "
         "face radius for volumes/integrals, 1e-12 relative for idempotence, contains_point undecided within 0.5e-9 cells of a face"
@@ -1126,7 +1364,7 @@ def main(run):
         "symmetric plane (which ray represents the point is a convention) and component-wise otherwise",
     ]
     return (
-        "one case = one grid configuration of the complete product class x shape x bounds{unit,negative,1e-3,1e6,asymmetric} "
+        "one case = one grid configuration of the complete product class x shape x bounds{unit,negative,1e-3,1e6,asymmetric,(0,4.5)} "
         "x inner radius{0,0.5,1} x scale x periodicity flags (3-d bounds: covering design, complete product in thorough for two "
         "shapes); per grid every point of the full lattice (all combinations across axes) and every ordered pair of the pair "
         "lattice is executed as single points and as batches (n,d), (m,n,d); evaluations = individual oracle comparisons; "
